@@ -57,11 +57,11 @@ func protoCallback(callback *callback.Callback) *pb.Callback {
 }
 
 func protoRecv(recv *pb.Recv) ([]byte, error) {
-	switch r := recv.Recv.(type) {
+	switch r := recv.GetRecv().(type) {
 	case *pb.Recv_Logical:
 		return json.Marshal(&r.Logical)
 	case *pb.Recv_Physical:
-		return json.Marshal(&receiver.Recv{Type: r.Physical.Type, Data: r.Physical.Data})
+		return json.Marshal(&receiver.Recv{Type: r.Physical.GetType(), Data: r.Physical.GetData()})
 	default:
 		return nil, status.Error(codes.InvalidArgument, "The field recv is required.")
 	}
